@@ -41,7 +41,9 @@ Inductive rule :=
 | RSeq              (* "last item in sequence should be expression" / "no type in sequence" *)
 | RUnknownType      (* "cannot find record or enum R" *)
 | RMatch            (* "match is not exhaustive" (surface model, TypecheckMatch.v) *)
-| RException.       (* "unknown exception e"      (surface model, TypecheckMatch.v) *)
+| RException        (* "unknown exception e"      (surface model, TypecheckMatch.v) *)
+| RForIn.           (* "for in loop expression is not of one dimensional array, slice or range" /
+                       "expected range from|to of type int"          tcforin.c, expr_range_check_type *)
 
 Inductive res (A : Type) :=
 | Ok (a : A)
